@@ -985,6 +985,138 @@ func ruleParse(c *Ctx, p *Program, byName map[string]*ssa.Function) {
 	finiteGuard := finiteGuarded(fn, 0)
 	c.Check(parsesWithApd, "C19.M4", "NewDecFromString#parser", p.Pos(fn.Pos()), "string is parsed by apd.NewFromString")
 	c.Check(finiteGuard, "C19.M4", "NewDecFromString#finite-only", p.Pos(fn.Pos()), "every success return lies behind Form == apd.Finite (NaN, signalling NaN and Infinite are rejected); form comparisons seen: "+strings.Join(formCmps, ","))
+	ruleMantissaSign(c, p, fn)
+}
+
+// noSignAfterPoint: the strings in which no '+' or '-' directly follows a '.'.
+const noSignAfterPoint = `([^.]|\.+[^.+\-])*\.*`
+
+// ruleMantissaSign: apd's parser consumes one leading sign, removes the decimal point and hands the rest of the
+// mantissa to big.Int.SetString — which accepts a sign of its own. ".-5" therefore parses to a value with a
+// NEGATIVE coefficient that is not flagged negative (IsNegative false, SafeSubBalance(10, x) = 10.05), and ".+5"
+// to 0.05 (found on the pinned tree in round 7, reproduced through Msg/Send, repaired by a fix: commit). A sign
+// can reach the coefficient only directly after the point, so: every success path of the parser lies behind a
+// rejection of both ".-" and ".+" in its input (two strings.Contains tests decided false, a same-package helper
+// for which this holds returning nil, or a match of the input against an anchored package-level regex whose
+// language contains no such string — decided by automata).
+func ruleMantissaSign(c *Ctx, p *Program, fn *ssa.Function) {
+	ok, why := mantissaSignGuarded(p, fn, 0)
+	c.Check(ok, "C19.M4", "NewDecFromString#mantissa-sign", p.Pos(fn.Pos()), "every success return lies behind the rejection of a sign directly after the decimal point (\".-5\" would yield a negative coefficient not flagged negative, \".+5\" the value 0.05)"+why)
+}
+
+func mantissaSignGuarded(p *Program, fn *ssa.Function, depth int) (bool, string) {
+	if depth > 3 || len(fn.Blocks) == 0 {
+		return false, ": no body"
+	}
+	var prm *ssa.Parameter
+	for _, q := range fn.Params {
+		if b, isB := q.Type().Underlying().(*types.Basic); isB && b.Kind() == types.String {
+			prm = q
+			break
+		}
+	}
+	if prm == nil {
+		return false, ": no string parameter"
+	}
+	if okRe, _, _ := acceptsOnlyMatches(p, fn, prm, map[*ssa.Parameter]globRef{}, noSignAfterPoint, 0); okRe {
+		return true, ""
+	}
+	var fromPrm func(v ssa.Value, d int) bool
+	fromPrm = func(v ssa.Value, d int) bool {
+		if v == ssa.Value(prm) {
+			return true
+		}
+		if ph, isPhi := v.(*ssa.Phi); isPhi && d < 3 {
+			some := false
+			for _, e := range ph.Edges {
+				if k, isK := e.(*ssa.Const); isK && k.Value != nil && k.Value.Kind() == constant.String {
+					sv := constant.StringVal(k.Value)
+					if strings.Contains(sv, ".-") || strings.Contains(sv, ".+") {
+						return false
+					}
+					continue
+				}
+				if !fromPrm(e, d+1) {
+					return false
+				}
+				some = true
+			}
+			return some
+		}
+		return false
+	}
+	var minus, plus []*ssa.Call
+	type helper struct {
+		call   *ssa.Call
+		errVal ssa.Value
+	}
+	var helpers []helper
+	for _, ci := range callsIn(fn) {
+		call, isCall := ci.(*ssa.Call)
+		if !isCall {
+			continue
+		}
+		pkg, name := calleePkgName(&call.Call)
+		if pkg == "strings" && name == "Contains" && len(call.Call.Args) == 2 && fromPrm(call.Call.Args[0], 0) {
+			if k, isK := call.Call.Args[1].(*ssa.Const); isK && k.Value != nil && k.Value.Kind() == constant.String {
+				switch constant.StringVal(k.Value) {
+				case ".-":
+					minus = append(minus, call)
+				case ".+":
+					plus = append(plus, call)
+				}
+			}
+			continue
+		}
+		sc := call.Call.StaticCallee()
+		if sc == nil || sc == fn || sc.Pkg != fn.Pkg || len(sc.Blocks) == 0 || errResultIndex(sc.Signature) < 0 {
+			continue
+		}
+		passes := false
+		for _, a := range call.Call.Args {
+			if fromPrm(a, 0) {
+				passes = true
+			}
+		}
+		if !passes {
+			continue
+		}
+		if g, _ := mantissaSignGuarded(p, sc, depth+1); !g {
+			continue
+		}
+		if ev := errValueOf(call); ev != nil {
+			helpers = append(helpers, helper{call, ev})
+		}
+	}
+	if (len(minus) == 0 || len(plus) == 0) && len(helpers) == 0 {
+		return false, ": no test of the input for \".-\" and \".+\" (strings.Contains), no guarded helper, no anchored regex excluding them"
+	}
+	ok, why := everySuccessPath(fn, func(pf *pgPath, n *pgNamer, bp []*ssa.BasicBlock, ev ssa.Value) bool {
+		decidedFalse := func(cs []*ssa.Call) bool {
+			for _, call := range cs {
+				if v, seen := pf.lits[n.term(call, 0)]; seen && !v {
+					return true
+				}
+			}
+			return false
+		}
+		if decidedFalse(minus) && decidedFalse(plus) {
+			return true
+		}
+		for _, h := range helpers {
+			if ev == h.errVal && onPath(bp, h.call.Block()) {
+				return true
+			}
+			if v, seen := pf.lits["("+orderPair(n.term(h.errVal, 0), "nil")+")"]; seen && v {
+				return true
+			}
+		}
+		return false
+	})
+	if !ok && why != "" {
+		why = ": " + why
+	}
+	return ok, why
 }
 
 func isFormLoad(v ssa.Value) bool {
@@ -1492,6 +1624,9 @@ func ruleArith(c *Ctx, e *Env, rule string, keep func(ep *EntryPoint) bool) {
 		if f := byName[pr[0]]; f != nil {
 			tmp.Check(callsFn(f, pr[1]), "C19.M4", pr[0]+"#parses-via:"+pr[1], p.Pos(f.Pos()), pr[0]+" obtains its value from "+pr[1]+", handing it its own string argument unchanged")
 		}
+	}
+	if f := byName["NewDecFromString"]; f != nil {
+		ruleMantissaSign(tmp, p, f)
 	}
 	n := 0
 	for _, o := range tmp.Obligs {
